@@ -15,6 +15,7 @@ checked by execution: destinations laid out between canaries (harness c07.go), a
 string / slice header after every call, and forced garbage collections.
 -/
 import GoJson.Model.Mem
+import GoJson.Model.Pool
 import GoJson.Props.C06
 
 namespace GoJson.Props.C07
@@ -69,5 +70,62 @@ theorem old_fill_overruns : ∃ w ∈ fillWord 3 1 1, ¬ inBounds 3 1 w := by
 theorem reads_stay_in_buffer (range : Bool) (fuel d : Nat) (b : List UInt8) :
     Model.BufDec.value range fuel d (b ++ [0]) ≠ .oob :=
   GoJson.Props.C06.decoder_never_reads_past_terminator range fuel d b
+
+/-! ### the slice decoder's pooled working arrays -/
+
+open GoJson.Model.Pool in
+/-- one doubling is enough when indexes are visited in order: the index that does not fit is the
+capacity itself -/
+theorem run_inv : ∀ (n : Nat) (l : Loc) (idx : Nat), LInv l → idx ≤ l.cap →
+    LInv (run l idx n).1 ∧ ∀ w ∈ (run l idx n).2, w.2 < w.1 := by
+  intro n
+  induction n with
+  | zero => intro l idx h _; exact ⟨h, by intro w hw; cases hw⟩
+  | succ n ih =>
+    intro l idx h hle
+    unfold run
+    simp only
+    have hfit : LInv (fit l idx) ∧ idx < (fit l idx).cap := by
+      unfold fit
+      by_cases hc : l.cap ≤ idx
+      · have : idx = l.cap := by omega
+        simp only [hc, if_true]
+        unfold LInv at *
+        simp only
+        exact ⟨⟨Nat.le_refl _, by omega⟩, by omega⟩
+      · simp only [hc, if_false]
+        exact ⟨h, by omega⟩
+    obtain ⟨h1, h2⟩ := ih (fit l idx) (idx + 1) hfit.1 (by omega)
+    refine ⟨h1, ?_⟩
+    intro w hw
+    simp only [List.mem_cons] at hw
+    rcases hw with rfl | hw
+    · simp only
+      have := hfit.1.1
+      omega
+    · exact h2 w hw
+
+open GoJson.Model.Pool in
+/-- **Every store of the element loop lies inside the working array, and the header that goes back to
+the pool never claims more than its array holds** — for every pooled header that satisfies the
+invariant, every number of elements, on the success path and on the releasing error paths alike. By
+induction over the pool's history every header ever taken from the pool satisfies the invariant
+(`Pool.New` makes ⟨2, 2⟩). -/
+theorem pooled_header_never_overclaims (h : Hdr) (n : Nat) (hi : HInv h) :
+    HInv (release (run (start h) 0 n).1) ∧ ∀ w ∈ (run (start h) 0 n).2, w.2 < w.1 := by
+  have := run_inv n (start h) 0 (by unfold LInv start; exact hi) (Nat.zero_le _)
+  exact ⟨by unfold HInv release; exact this.1, this.2⟩
+
+open GoJson.Model.Pool in
+theorem pool_new_inv : HInv ⟨2, 2⟩ := by unfold HInv; decide
+
+open GoJson.Model.Pool in
+/-- the seeded variant (capacity written back without the array): after one doubling the pooled
+header claims 4 elements for an array of 2, and the next decode stores element 2 outside it -/
+theorem stale_array_overclaims :
+    ¬ HInv (releaseStale ⟨2, 2⟩ (run (start ⟨2, 2⟩) 0 3).1) ∧
+    (2, 2) ∈ (run (start (releaseStale ⟨2, 2⟩ (run (start ⟨2, 2⟩) 0 3).1)) 0 3).2 := by
+  unfold HInv
+  decide
 
 end GoJson.Props.C07
